@@ -179,6 +179,11 @@ func (g *gen) binProgram(op, dt, kind, via string, sh []int, la, lb string, mode
 		if mode == "reuse-same" {
 			opts += " same"
 		}
+	case "unsafe-reuse":
+		// both options at once: the reuse tensor is the destination, the operands stay as they are
+		d := g.operand(&steps, &nv, dt, sh, destLayout)
+		operands = append(operands, d)
+		opts = fmt.Sprintf(" unsafe reuse=$%d", d)
 	case "reuse-bool":
 		steps = append(steps, fmt.Sprintf("new b %s C", ints(sh)))
 		d := nv
@@ -429,10 +434,18 @@ func genC07(g *gen) {
 	}
 	g.scalarTensorMatrix([]string{"lt", "gte"}, []string{"f64", "i32", "u8", "i64"}, []string{"same", "unsafe", "reuse-same"})
 	for _, op := range []string{"minb", "maxb"} {
-		for _, mode := range []string{"safe", "unsafe", "reuse", "reuse=a", "reuse=b"} {
+		for _, mode := range []string{"safe", "unsafe", "reuse", "reuse=a", "reuse=b", "unsafe-reuse"} {
 			for _, kind := range []string{"TT", "TS", "ST"} {
 				for k := 0; k < n; k++ {
 					g.binProgram(op, g.r.pick(ordDtypes[:12]), kind, g.r.pick([]string{"fn", "meth"}), g.pickShape(), g.r.pick(layouts), g.r.pick(layouts), mode, g.r.pick(dests))
+				}
+			}
+		}
+		// in place (UseUnsafe) on one-element tensors and on every layout, scalar on either side
+		for _, kind := range []string{"TT", "TS", "ST"} {
+			for _, sh := range [][]int{{1}, {1, 1}, {2, 3}} {
+				for _, l := range layouts {
+					g.binProgram(op, g.r.pick(ordDtypes[:12]), kind, "fn", sh, l, l, "unsafe", "contig")
 				}
 			}
 		}
